@@ -170,6 +170,8 @@ def judge_random_bytes(args):
     except Exception:
         return {'counts': {}, 'viol': [], 'samples': [], 'distinct': [], 'incon': ['regex worker: ' + traceback.format_exc()[-1200:]]}
 
+OVERFLOW_KEY = 'site:dfa_size_analyzer@count-overflows-32-bits'
+
 def judge_batch(args):
     try:
         return _judge_batch(args)
@@ -193,9 +195,14 @@ def _judge_batch(args):
         if r is None: continue
         C['evaluations'] += 1
         if r['status'] == 'toolarge': C['skipped_too_large'] += 1; continue
-        g = rr.Glushkov(ast); det = g.deterministic()
+        if rr.positions_count(ast) > 50000:
+            # (only the size prediction of such patterns is looked at: their automata cannot be built by anyone)
+            if prop != 'C12': C['skipped_too_large'] += 1; continue
+            det = True; nested = False
+        else:
+            g = rr.Glushkov(ast); det = g.deterministic()
+            nested = nested_loop(ast)
         C['patterns_deterministic' if det else 'patterns_nondeterministic'] += 1
-        nested = nested_loop(ast)
         if det and nested: C['patterns_deterministic_nested_loops'] += 1
         keys = [pattern_key(text)]
         if not is_corpus:
@@ -207,7 +214,9 @@ def _judge_batch(args):
                 C['size_predictions_checked'] += 1
                 out['distinct'].append(common.sha(text)[:12])
                 if r['status'] == 'threw' or r['actual'] > r['pred']:
-                    out['viol'].append(([pattern_key(text), 'site:dfa_size_analyzer@underestimate'], 'pattern %r: dfa_size_analyzer predicts %d states, the builder created %d (%s)' % (text, r['pred'], r['actual'], r['status']), rep))
+                    # recorded finding: repetition counts whose state count does not fit the analyzer's 32-bit arithmetic wrap around (decided here in unbounded arithmetic)
+                    ovf = [OVERFLOW_KEY] if rr.analyzer_size_exact(ast) >= 2 ** 32 else []
+                    out['viol'].append(([pattern_key(text), 'site:dfa_size_analyzer@underestimate'] + ovf, 'pattern %r: dfa_size_analyzer predicts %d states, the builder created %d (%s)' % (text, r['pred'], r['actual'], r['status']), rep))
             continue
         if r['status'] != 'ok':
             out['viol'].append((keys, 'pattern %r in the documented syntax was %s by the pattern parser' % (text, r['status']), rep)); continue
